@@ -120,6 +120,9 @@ func behaviourClass(steps []step, verdictKey string) string {
 	for _, r := range toStrings(last["sole"]) {
 		feat["sole:"+r] = true // some object is retained for this reason alone
 	}
+	if ne, _ := last["nearEdge"].(bool); ne {
+		feat["near-edge"] = true // a version kept by a commit one day inside the recent-commits window
+	}
 	if last.str("from") == "linked" {
 		feat["from-linked"] = true
 	}
@@ -160,6 +163,7 @@ func requireActions(c *core.Ctx, names ...string) {
 
 // samplePriority, when set by a check, marks behaviour classes that are replayed first.
 var samplePriority func(class string) bool
+var sampleFirst func(class string) bool
 
 func sampleBehaviours(c *core.Ctx, file string, verdictKey string, budget int) ([]*behaviour, int, int) {
 	byClass := map[string][]*behaviour{}
@@ -206,12 +210,24 @@ func sampleBehaviours(c *core.Ctx, file string, verdictKey string, budget int) (
 	sort.Slice(classes, func(i, j int) bool { return fnvStr(classes[i], c.Seed) < fnvStr(classes[j], c.Seed) })
 	var out []*behaviour
 	taken := map[string]bool{}
+	if sampleFirst != nil {
+		// classes the caller wants before everything else (up to a sixth of the budget)
+		for _, k := range classes {
+			if len(out) >= budget/6 {
+				break
+			}
+			if sampleFirst(k) {
+				out = append(out, byClass[k][0])
+				taken[k] = true
+			}
+		}
+	}
 	if samplePriority != nil {
 		for _, k := range classes {
 			if len(out) >= budget/4 {
 				break
 			}
-			if samplePriority(k) {
+			if samplePriority(k) && !taken[k] {
 				out = append(out, byClass[k][0])
 				taken[k] = true
 			}
